@@ -66,6 +66,7 @@ unsigned vp_c19_hash_alg(const void *h); unsigned vp_c19_hash_calls(const void *
 unsigned vp_c19_nqueued(); void *vp_c19_queued_obj(); bool vp_c19_queued_ok();
 unsigned vp_c19_dom_nchildren(const QDomElement *);
 void vp_c19_dom_child(QDomElement *out, const QDomElement *el, unsigned i);
+bool vp_c19_text_is_b64_of(const QString *text, const QByteArray *raw);
 }
 #define L(x) QStringLiteral(x)
 
@@ -131,7 +132,8 @@ bool QXmppClient::sendPacket(const QXmppNonza &p)
             g_sent.sidOk = c.attribute(L("sid")) == g_exp.sid;
             if (g_sent.kind == K_DATA) {
                 g_sent.seqOk = c.attribute(L("seq")) == g_exp.seq;
-                g_sent.payloadOk = c.text() == QString::fromUtf8(g_exp.payload.toBase64());
+                const QString text = c.text();
+                g_sent.payloadOk = vp_c19_text_is_b64_of(&text, &g_exp.payload);   // text == base64(expected bytes) (abstract base64 of the string model)
             }
         }
     }
